@@ -228,14 +228,23 @@ def run(ctx, chk):
                 if d[0] == "call" and any(n.endswith("::len") for n in names(d[2])):
                     out.add(d[1])
         return out
+    # the entry is a (len, version, data) tuple today; a private struct with the same content is the same thing: an
+    # aggregate that holds a usize and the Arc<[T]> snapshot
+    def _ty(o_):
+        pl_ = op_place(o_)
+        return mat.locals[pl_["l"]]["ty"] if pl_ is not None and not pl_["p"] else ""
     stores = [(b, st) for b in mat.reachable() for st in mat.blocks[b]["stmts"]
-              if st[0] == "assign" and st[2]["k"] == "agg" and st[2].get("tuple") and len(st[2].get("ops", [])) == 3
-              and "*" in [e for e in st[1]["p"] if isinstance(e, str)]]
+              if st[0] == "assign" and st[2]["k"] == "agg" and not st[2].get("closure") and len(st[2].get("ops", [])) >= 2
+              and any(_ty(o_) == "usize" for o_ in st[2]["ops"])
+              and any(_ty(o_).startswith("alloc::sync::Arc<[") for o_ in st[2]["ops"])]
     cols = O.sites(mat, M(r"vecdb::traits::readable::ReadableVec::collect_range(_dyn|_at)?"))
     if not stores or not cols:
         raise AnchorMissing("CachedVec::materialize: snapshot store / collect_range site not found")
     for b, st in stores:
-        key_len = len_sites(st[2]["ops"][0])
+        key_len = set()
+        for o_ in st[2]["ops"]:
+            if _ty(o_) == "usize":
+                key_len |= len_sites(o_)
         bound = set()
         for cb in cols:
             bound |= len_sites(mat.blocks[cb]["term"]["args"][2])
